@@ -16,6 +16,7 @@ mod long;
 mod mutate;
 mod par;
 mod parcmd;
+mod ricecmd;
 mod sched;
 mod sink;
 mod stream;
@@ -103,6 +104,7 @@ fn main() {
         "seqproto" => parcmd::cmd_seqproto(&a),
         "sink" => sink::cmd_sink(&a),
         "faulty" => sink::cmd_faulty(&a),
+        "rice" => ricecmd::cmd_rice(&a),
         "fill" => fill::cmd_fill(&a),
         "cfg07" => cfgcmd::cmd_cfg07(&a),
         "comp" => comp::cmd_comp(&a),
